@@ -33,12 +33,15 @@ import (
 var errInjected = errors.New("injected write failure")
 
 const (
-	modeFromK    = iota // fails at call k and at every later call
-	modeOnlyK           // fails at call k only
-	modePartialK        // accepts half of call k's bytes and returns an error; later calls succeed
+	modeFromK      = iota // fails at call k and at every later call
+	modeOnlyK             // fails at call k only
+	modePartialK          // accepts half of call k's bytes and returns an error; later calls succeed
+	modeFullK             // accepts all of call k's bytes and still returns an error (write-then-sync, quota and tee writers do this); later calls succeed
+	modeAllButOneK        // accepts all but the last byte of call k and returns an error; later calls fail too
+	c15NModes
 )
 
-var c15ModeNames = []string{"fails from call k on", "fails only at call k", "partial write with error at call k"}
+var c15ModeNames = []string{"fails from call k on", "fails only at call k", "partial write with error at call k", "complete write reported together with an error at call k", "all but one byte written at call k, failing from then on"}
 
 type scriptWriter struct {
 	k, mode  int
@@ -71,6 +74,25 @@ func (w *scriptWriter) Write(p []byte) (int, error) {
 				n := len(p) / 2
 				w.accepted = append(w.accepted, p[:n]...)
 				return n, errInjected
+			}
+		case modeFullK:
+			if w.calls == w.k {
+				w.failed = true
+				w.accepted = append(w.accepted, p...)
+				return len(p), errInjected
+			}
+		case modeAllButOneK:
+			if w.calls == w.k {
+				w.failed = true
+				n := len(p) - 1
+				if n < 0 {
+					n = 0
+				}
+				w.accepted = append(w.accepted, p[:n]...)
+				return n, errInjected
+			}
+			if w.calls > w.k {
+				return 0, errInjected
 			}
 		}
 	}
@@ -183,9 +205,9 @@ func c15Inject(c *Ctx, spec *gen.TableSpec, skipable bool, sample bool) {
 		// also: Render() must equal what RenderTo wrote
 		c.Rec.Eval(gen.Hash64(spec.Shape(), fmt.Sprint(textsOf(spec)), rd.name, fmt.Sprint(skipable)), n > 0)
 		for k := 1; k <= n; k++ {
-			for mode := 0; mode < 6; mode++ {
-				kind := mode / 3 // 0: plain io.Writer; 1: a writer that also implements io.StringWriter
-				mode := mode % 3
+			for mode := 0; mode < 2*c15NModes; mode++ {
+				kind := mode / c15NModes // 0: plain io.Writer; 1: a writer that also implements io.StringWriter
+				mode := mode % c15NModes
 				cs.K, cs.Mode = k, c15ModeNames[mode]
 				w := &scriptWriter{k: k, mode: mode}
 				var dst io.Writer = w
@@ -216,12 +238,14 @@ func c15Inject(c *Ctx, spec *gen.TableSpec, skipable bool, sample bool) {
 			}
 		}
 		if sample && n > 3 && c.Rec.WantSample() {
-			c.Rec.Sample(map[string]interface{}{"table": spec, "renderer": rd.name, "fault_free_write_calls": n, "injections": n * 3})
+			c.Rec.Sample(map[string]interface{}{"table": spec, "renderer": rd.name, "fault_free_write_calls": n, "injections": n * 2 * c15NModes})
 		}
 	}
 }
 
-func modeKey(m int) string { return []string{"from-k", "only-k", "partial-k"}[m] }
+func modeKey(m int) string {
+	return []string{"from-k", "only-k", "partial-k", "full-k", "all-but-one-k"}[m]
+}
 
 func c15Fixed(c *Ctx, i int, r *gen.R) {
 	ts := c15FixedTables()
@@ -233,6 +257,96 @@ func c15Random(c *Ctx, i int, r *gen.R) {
 	spec := r.Table(gen.TableOpts{MaxCols: 4, MaxRows: 5, ZeroHeaderOK: true, MinCols: 0,
 		Item: func(r *gen.R) gen.ItemSpec { return r.TextItem(c10Fam, 4) }})
 	c15Inject(c, &spec, r.Chance(1, 4), true)
+}
+
+// ---- destinations of other dynamic types that fail for real: nothing in the property depends on the writer being a test double
+
+type c15Dest struct {
+	name string
+	open func(dir string) (io.Writer, func())
+}
+
+var c15FailingDests = []c15Dest{
+	{"*os.File that has been closed", func(dir string) (io.Writer, func()) {
+		f, err := os.CreateTemp(dir, "c15-closed-*.out")
+		if err != nil {
+			return nil, nil
+		}
+		f.Close()
+		return f, func() { os.Remove(f.Name()) }
+	}},
+	{"*os.File opened read-only", func(dir string) (io.Writer, func()) {
+		f, err := os.CreateTemp(dir, "c15-ro-*.out")
+		if err != nil {
+			return nil, nil
+		}
+		f.Close()
+		g, err := os.Open(f.Name())
+		if err != nil {
+			os.Remove(f.Name())
+			return nil, nil
+		}
+		return g, func() { g.Close(); os.Remove(f.Name()) }
+	}},
+	{"*os.File on /dev/full", func(dir string) (io.Writer, func()) {
+		f, err := os.OpenFile("/dev/full", os.O_WRONLY, 0)
+		if err != nil {
+			return nil, nil
+		}
+		return f, func() { f.Close() }
+	}},
+	{"*os.File that is a pipe nobody reads any more", func(dir string) (io.Writer, func()) {
+		pr, pw, err := os.Pipe()
+		if err != nil {
+			return nil, nil
+		}
+		pr.Close()
+		return pw, func() { pw.Close() }
+	}},
+	{"*io.PipeWriter whose reader has gone away", func(dir string) (io.Writer, func()) {
+		pr, pw := io.Pipe()
+		pr.CloseWithError(errInjected)
+		return pw, func() { pw.Close() }
+	}},
+}
+
+func c15RealDest(c *Ctx, i int, r *gen.R) {
+	ts := c15FixedTables()
+	spec := ts[i%len(ts)]
+	for _, rd := range c15Renderers() {
+		ref := &scriptWriter{}
+		t := tabular.New()
+		spec.Build(t)
+		if rd.to(t, ref) != nil || len(ref.accepted) == 0 {
+			continue // a write of no bytes does not reach the file, so it cannot fail
+		}
+		for _, d := range c15FailingDests {
+			w, done := d.open(c.OutDir)
+			if w == nil {
+				c.Rec.Count("destinations_unavailable", 1)
+				continue
+			}
+			cs := map[string]interface{}{"table": spec, "renderer": rd.name, "destination": d.name}
+			c.Case = cs
+			t := tabular.New()
+			spec.Build(t)
+			var err error
+			panicked, val, stack := Guard(func() { err = rd.to(t, w) })
+			done()
+			c.Rec.Eval(gen.Hash64("dest", spec.Shape(), rd.name, d.name), true)
+			c.Rec.Count("renders_to_really_failing_destinations", 1)
+			c.Rec.Count("detail:failing_destination:"+d.name, 1)
+			cls := formatClass(rd.name)
+			if panicked {
+				c.Rec.ViolateStack("panic-on-write-failure:"+cls+":real-destination@"+PanicSite(stack), fmt.Sprintf("%s panicked writing to %s: %v", rd.name, d.name, val), cs, stack)
+				return
+			}
+			if err == nil {
+				c.Rec.Violate("nil-error:"+cls+":real-destination", fmt.Sprintf("%s writing to %s (every write fails): RenderTo returned nil", rd.name, d.name), cs)
+				return
+			}
+		}
+	}
 }
 
 // ---- second channel (thorough): a real write(2) on a real file fails with ENOSPC under strace
@@ -298,6 +412,9 @@ func c15Strace(c *Ctx, i int, r *gen.R) {
 		return
 	}
 	k := 1 + r.Intn(ref.calls)
+	if r.Chance(1, 3) {
+		k = 1 // whatever batching the renderer does, there is a first write(2)
+	}
 	plus := ""
 	if r.Bool() {
 		plus = "+"
@@ -351,8 +468,8 @@ func init() {
 	register(&Prop{
 		ID:    "C15",
 		Level: "fault_enumeration",
-		Rule: "for each (table, renderer) the fault-free run counts N Write calls and records the reference bytes; then EVERY k in 1..N x 3 modes {fails from call k on, fails only at call k, accepts half of call k's bytes and returns an error} is injected through a scripted io.Writer and again through a scripted writer that also implements io.StringWriter (exhaustive per table and renderer). Renderers: csv, json, markdown, html, html with class/id/caption/row-class generator, text under every registered decoration. " +
-			"phase 0: 9 fixed tables (one of them 70 rows tall) chosen to reach every write site (header/no header/empty header/only header, separators leading/trailing/consecutive, ragged and zero-cell rows, multi-line cells, rows extended after attach, no columns) x {plain, JSON skipable default}; phase 1: random tables; phase 2 (thorough): the same renderers writing to a real file whose k-th write(2) fails with ENOSPC under strace -e inject (k random per case, 'only k' and 'from k on'). " +
+		Rule: "for each (table, renderer) the fault-free run counts N Write calls and records the reference bytes; then EVERY k in 1..N x 5 modes {fails from call k on, fails only at call k, accepts half of call k's bytes and returns an error, accepts all of call k's bytes and returns an error, accepts all but one byte of call k and fails from then on} is injected through a scripted io.Writer and again through a scripted writer that also implements io.StringWriter (exhaustive per table and renderer). Renderers: csv, json, markdown, html, html with class/id/caption/row-class generator, text under every registered decoration. " +
+			"phase 0: 9 fixed tables (one of them 70 rows tall) chosen to reach every write site (header/no header/empty header/only header, separators leading/trailing/consecutive, ragged and zero-cell rows, multi-line cells, rows extended after attach, no columns) x {plain, JSON skipable default}; phase 1: random tables; phase 2 (thorough): the same renderers writing to a real file whose k-th write(2) fails with ENOSPC under strace -e inject (k random per case or the very first write, 'only k' and 'from k on'); phase 3: the same renderers writing to destinations of other dynamic types on which every write really fails (closed file, read-only file, /dev/full, OS pipe without reader, io.Pipe whose reader has gone). " +
 			"Distinct = distinct (table, renderer); non-trivial = the fault-free run makes at least one Write call.",
 		Assumptions: []string{
 			"a writer returning a short count with a nil error breaks the io.Writer contract and is not injected",
@@ -360,9 +477,10 @@ func init() {
 			"each injection runs on a freshly built table and wrapper",
 		},
 		Phases: []Phase{
-			{Name: "9 fixed tables x 2 x all renderers x every k x 3 modes x 2 writer kinds", Exhaustive: true, N: Fixed(nt*2, nt*2), Run: c15Fixed},
-			{Name: "random tables x all renderers x every k x 3 modes", N: Fixed(32, 2000), Run: c15Random},
+			{Name: "9 fixed tables x 2 x all renderers x every k x 5 modes x 2 writer kinds", Exhaustive: true, N: Fixed(nt*2, nt*2), Run: c15Fixed},
+			{Name: "random tables x all renderers x every k x 5 modes", N: Fixed(32, 2000), Run: c15Random},
 			{Name: "real write(2) failing with ENOSPC under strace (thorough only)", N: Fixed(0, 160), Run: c15Strace},
+			{Name: "9 fixed tables x all renderers x 5 really failing destinations (closed, read-only and /dev/full files, broken OS pipe, broken io.Pipe)", Exhaustive: true, N: Fixed(nt, nt), Run: c15RealDest},
 		},
 	})
 }
